@@ -232,6 +232,17 @@ pub fn apply(w: &World, rs: &mut Vec<Routed>, op: Op) -> Vec<u64> {
                 Err(e) => vec![u64::MAX, fnv(&e)],
             };
             out.push(rs[s].sampler.get_dimension().map(|d| d as u64).unwrap_or(u64::MAX));
+            // the replacement is also driven through generate_sample_from_rng (its number of draws differs from the original's
+            // for sampler A): whatever the library remembers about "the sampler at this address" is now about the replacement
+            {
+                let mut rng = Scripted { vals: (0..64u64).map(|i| ((i + 3).wrapping_mul(0x9E37_79B9_7F4A_7C15) | 1 << 62) & !(0x7ff) & !(1u64 << 63)).collect(), pos: 0 };
+                let o = rs[s].sampler.sample_rng(&rs[s].ed, &Settings::META, &mut rng, &NullLogger);
+                match outcome_bits(&o) {
+                    Ok(b) => out.extend(b),
+                    Err(e) => out.extend([u64::MAX, fnv(&e)]),
+                }
+                out.push(rng.pos as u64);
+            }
             rs[s] = route(&w.cases[s], &w.kins[s]).expect("history sampler builds");
             out.push(rs[s].sampler.get_dimension().map(|d| d as u64).unwrap_or(u64::MAX));
             out
@@ -882,6 +893,8 @@ pub fn run_c18(ctx: &Ctx) -> i32 {
     let cases = {
         let mut c = fam_for(tier, "C18");
         c.extend(dl_grid_cases().into_iter().filter(|c| c.g.loop_number(c.g.full()) <= 3));
+        // size ladder: more than 8 edges (more than 256 table rows, all different), more than 6 loops, more than 64 signature entries
+        c.extend(large_cases(tier));
         c
     };
     let roles = Roles { u: true, xi: true, p: true, ab: true, xi_moderate: true, xi_ladder: false };
@@ -921,6 +934,31 @@ pub fn run_c18(ctx: &Ctx) -> i32 {
                 }
             }
         }
+        // signature entries are arbitrary integers (a loop momentum routed in rescaled units): values beyond i8 / i16 / i32
+        for (tag, mul) in [("x200", 200isize), ("x-129", -129), ("x70000", 70000), ("x-2^33", -(1isize << 33))] {
+            let scaled: Vec<Vec<isize>> = r.kin.sig.iter().map(|row| row.iter().map(|&x| x as isize * mul).collect()).collect();
+            if let BuildOutcome::Ok(rs) = build(&r.graph, &scaled) {
+                let order: Vec<usize> = (0..case.g.ne()).collect();
+                let x = sector_defaults(&case, &order);
+                let want = outcome_bits(&rs.sample(&x, &r.ed, &Settings::META));
+                for (name, s2) in [("json", Sampler::from_json_str(d, &rs.to_json_string())), ("cbor", Sampler::from_cbor(d, &rs.to_cbor())), ("positional", rs.to_seq_value().and_then(|v| Sampler::from_seq_value(d, v)))] {
+                    acc.inc("scaled_signature_roundtrips");
+                    let same = match &s2 {
+                        Ok(s2) => outcome_bits(&s2.sample(&x, &r.ed, &Settings::META)) == want,
+                        Err(_) => false,
+                    };
+                    if !same {
+                        acc.violate(
+                            format!("C18/scaled-signature/{tag}/{name}/{:016x}", fnv(&graph_json(&case.g).to_string())),
+                            "restored sampler produces bit-identical samples",
+                            format!("sampler whose loop signature is the base routing times {mul} restored through {name} fails to load or samples differently"),
+                            point_case(&case, &r.kin, &x, &Settings::META, json!({"prop": "C18", "format": name, "signature_times": mul})),
+                        );
+                        return;
+                    }
+                }
+            }
+        }
         let restored: Vec<(&str, Sampler)> = vec![
             ("json", match Sampler::from_json_str(d, &r.sampler.to_json_string()) { Ok(s) => s, Err(_) => return }),
             ("cbor", match Sampler::from_cbor(d, &r.sampler.to_cbor()) { Ok(s) => s, Err(_) => return }),
@@ -935,7 +973,7 @@ pub fn run_c18(ctx: &Ctx) -> i32 {
         ];
         acc.inc("sampling_cases");
         let ne = case.g.ne();
-        let sectors = all_sectors(ne);
+        let sectors = sectors_for(ne, false);
         let stride = (sectors.len() + 5) / 6;
         for (si, order) in sectors.iter().enumerate() {
             if si % stride != 0 {
